@@ -1,0 +1,115 @@
+//go:build verif
+// +build verif
+
+package bfe_server
+
+// Hook for the out-of-tree verification harness of property C48 (build tag verif).  Add-only.
+// It builds a BfeServer that has everything conn.serve / ReverseProxy.ServeHTTP / clusterInvoke /
+// FinishReq touch (route tables loaded by the real bfe_route.LoadServerDataConf, a bal table with one
+// real BalanceGslb, the proxy state counters, empty callbacks) and runs the REAL conn.serve on an
+// in-memory net.Conn.  The backend is a caller-supplied RoundTripper.  Nothing of the verdict
+// handling is re-implemented here.
+
+import (
+	"bytes"
+	"io"
+	"net"
+	"sync"
+	"time"
+)
+
+import (
+	"github.com/bfenetworks/bfe/bfe_balance"
+	"github.com/bfenetworks/bfe/bfe_http"
+	"github.com/bfenetworks/bfe/bfe_module"
+	"github.com/bfenetworks/bfe/bfe_route"
+)
+
+type verifC48Conn struct {
+	in     *bytes.Reader
+	out    bytes.Buffer
+	closed bool
+	// writesAfterClose counts Write calls on the closed connection
+	writesAfterClose int
+}
+
+func (c *verifC48Conn) Read(p []byte) (int, error) {
+	if c.closed {
+		return 0, io.ErrClosedPipe
+	}
+	return c.in.Read(p)
+}
+func (c *verifC48Conn) Write(p []byte) (int, error) {
+	if c.closed {
+		c.writesAfterClose++
+		return 0, io.ErrClosedPipe
+	}
+	return c.out.Write(p)
+}
+func (c *verifC48Conn) Close() error { c.closed = true; return nil }
+func (c *verifC48Conn) LocalAddr() net.Addr {
+	return &net.TCPAddr{IP: net.IPv4(127, 0, 0, 1), Port: 8080}
+}
+func (c *verifC48Conn) RemoteAddr() net.Addr {
+	return &net.TCPAddr{IP: net.IPv4(127, 0, 0, 2), Port: 40000}
+}
+func (c *verifC48Conn) SetDeadline(t time.Time) error      { return nil }
+func (c *verifC48Conn) SetReadDeadline(t time.Time) error  { return nil }
+func (c *verifC48Conn) SetWriteDeadline(t time.Time) error { return nil }
+
+var verifC48Once sync.Once
+var verifC48Status *ServerStatus
+
+// VerifC48Env is one server with one cluster whose transport is the caller's RoundTripper.
+type VerifC48Env struct {
+	srv *BfeServer
+}
+
+// VerifC48NewEnv creates the server the way InitDataLoad does: route tables from the four
+// server_data_conf files, the bal table from the gslb / cluster_table files.  rt becomes the transport
+// of the cluster named `cluster`.
+func VerifC48NewEnv(hostFile, vipFile, routeFile, clusterConfFile, gslbFile, clusterTableFile string,
+	cluster string, rt bfe_http.RoundTripper, keepAlive bool) (*VerifC48Env, error) {
+	verifC48Once.Do(func() { verifC48Status = NewServerStatus() })
+	srv := new(BfeServer)
+	srv.serverStatus = verifC48Status
+	srv.BufioCache = NewBufioCache()
+	srv.ReverseProxy = NewReverseProxy(srv, verifC48Status.ProxyState)
+	srv.CallBacks = bfe_module.NewBfeCallbacks()
+	srv.MaxHeaderBytes = 1 << 20
+	srv.MaxHeaderUriBytes = 8 * 1024
+	srv.SetKeepAlivesEnabled(keepAlive)
+
+	sdc, err := bfe_route.LoadServerDataConf(hostFile, vipFile, routeFile, clusterConfFile)
+	if err != nil {
+		return nil, err
+	}
+	srv.ServerConf = sdc
+
+	// no health-check conf fetcher: no checker goroutines
+	srv.balTable = bfe_balance.NewBalTable(nil)
+	if err := srv.balTable.Init(gslbFile, clusterTableFile); err != nil {
+		return nil, err
+	}
+	srv.balTable.SetGslbBasic(sdc.ClusterTable)
+	srv.balTable.SetSlowStart(sdc.ClusterTable)
+	srv.ReverseProxy.transports[cluster] = rt
+	return &VerifC48Env{srv: srv}, nil
+}
+
+// AddFilter registers a callback at a callback point (real BfeCallbacks.AddFilter).
+func (e *VerifC48Env) AddFilter(point int, f interface{}) error {
+	return e.srv.CallBacks.AddFilter(point, f)
+}
+
+// Serve runs the real conn.serve over the client byte stream `input` and returns the bytes written
+// to the client, whether the connection was closed by the server when serve returned, and how many
+// input bytes were left unread.
+func (e *VerifC48Env) Serve(input []byte) (out []byte, closed bool, unread int) {
+	fc := &verifC48Conn{in: bytes.NewReader(input)}
+	c, _ := newConn(fc, e.srv)
+	rd := c.buf.Reader
+	base := rd.TotalRead
+	c.serve()
+	return append([]byte(nil), fc.out.Bytes()...), fc.closed, len(input) - (rd.TotalRead - base)
+}
